@@ -20,7 +20,7 @@ What it provides (DESIGN 2.5, row ``env/sched.py``):
 * :func:`load_utils_copy` - executes the real source of ``term_image.utils`` once more under
   a different module name with its own globals: a "process" of the replay is such a copy;
   :func:`install_locks` substitutes the stand-ins for ``_tty_lock``, ``_cell_size_lock``,
-  ``RLock``, ``mp_RLock``, ``Array`` and ``_rlock_type``; :func:`fork_into` / fresh copies
+  ``RLock``, ``mp_RLock``, ``Array`` and whatever names the lock type; :func:`fork_into` / fresh copies
   model ``fork`` / ``spawn``; :func:`apply_wrappers` wires ``_process_start_wrapper`` and
   ``_process_run_wrapper`` the way the bottom of the module does for ``Process.start/run``.
 
@@ -375,21 +375,36 @@ def load_utils_copy(name: str, ctl: Controller | None = None) -> dict:
         multiprocessing.Process.run = run0  # type: ignore[method-assign]
     for need in ("lock_tty", "cached", "terminal_size_cached", "_process_start_wrapper",
                  "_process_run_wrapper", "_tty_lock", "_cell_size_lock", "_cell_size_cache",
-                 "RLock", "mp_RLock", "_rlock_type", "Array", "get_cell_size"):
+                 "RLock", "mp_RLock", "Array", "get_cell_size"):
         if need not in g:
             raise MachineryError(f"seam term_image.utils.{need} is missing")
     return g
 
 
+def rebind_lock_type(ns, real_type, stand_in_type) -> list:
+    """Rebind every global of `ns` (dict or module) that IS the type of the replaced lock object."""
+    d = ns if isinstance(ns, dict) else vars(ns)
+    hit = [k for k, v in list(d.items()) if v is real_type and not k.startswith("__")]
+    for k in hit:
+        if isinstance(ns, dict):
+            dict.__setitem__(ns, k, stand_in_type)
+        else:
+            setattr(ns, k, stand_in_type)
+    return hit
+
+
 def install_locks(g: dict, ctl: Controller, proc_label: str = "p") -> None:
     """Substitute the instrumented stand-ins the way DESIGN C14 describes."""
     tty_re = probe_reentrant(dict.__getitem__(g, "_tty_lock"))
+    real_lock_type = type(dict.__getitem__(g, "_tty_lock"))
     cell_re = probe_reentrant(dict.__getitem__(g, "_cell_size_lock"))
     orig_rlock = g["RLock"]
     orig_mp_rlock = g["mp_RLock"]
     g["_tty_lock"] = SThreadLock(ctl, "tty", tty_re, f"T.tty.{proc_label}")
     g["_cell_size_lock"] = SThreadLock(ctl, "cell", cell_re, f"T.cell.{proc_label}")
-    g["_rlock_type"] = SThreadLock
+    # whatever name the module binds to "the type of a thread lock" (today `_rlock_type`) must keep
+    # recognising the stand-in: found through the lock object itself, not through the name
+    rebind_lock_type(g, real_lock_type, SThreadLock)
     tl = TrackedList(dict.__getitem__(g, "_cell_size_cache"))
     tl.ctl = ctl
     g["_cell_size_cache"] = tl
@@ -419,6 +434,9 @@ def install_locks(g: dict, ctl: Controller, proc_label: str = "p") -> None:
 
 def fork_into(parent: dict, child: dict, ctl: Controller, proc_label: str) -> None:
     """``fork``: the child's module state is a copy of the parent's at the time of the fork."""
+    for k, v in list(parent.items()):  # plain data (flags, numbers, ...) is copied as it is
+        if not k.startswith("__") and type(v) in (bool, int, float, str, bytes, type(None)):
+            dict.__setitem__(child, k, v)
     for name, group in (("_tty_lock", "tty"), ("_cell_size_lock", "cell")):
         lock = dict.__getitem__(parent, name)
         if isinstance(lock, SProcLock):
